@@ -1,8 +1,9 @@
 """C16 - derived krt collections always equal their function of the inputs; subscriber streams are consistent.
 
 Proof: lean/IstioModel/C16/MonitorTheorems.lean (the stream monitor accepts exactly the well-formed
-streams that replay to the given contents: monitorB_iff, sound and complete; late subscribers;
-splitting by keys), lean/IstioModel/C16/Theorems.lean (abstract runtime model of manyCollection).
+streams that replay to the given contents: monitorB_iff, sound and complete; late subscribers),
+lean/IstioModel/C16/RuntimeTheorems.lean (abstract runtime model of manyCollection, Model.lean:
+state_correct_partial, key_move_witness, state_correct_one_to_one, stream_wellformed, deps_complete).
 Tie: T-mon + T-diff on REAL krt collections.  harness/c16 builds static inputs, a
 NewCollection / NewManyCollection whose transformation function interprets a data-described
 Transform (krt.Fetch with FilterKey / FilterSelects / FilterSelectsNonEmpty / FilterLabel /
@@ -15,10 +16,7 @@ cases flagged `f6`; every other difference is a VIOLATION.
 """
 import os
 
-THEOREMS = ["IstioModel.C16.MonitorTheorems"]
-if os.path.exists(os.path.join(os.path.dirname(os.path.dirname(os.path.abspath(__file__))),
-                               "lean", "IstioModel", "C16", "Theorems.lean")):
-    THEOREMS.append("IstioModel.C16.Theorems")
+THEOREMS = ["IstioModel.C16.MonitorTheorems", "IstioModel.C16.RuntimeTheorems"]
 
 F6_FP = "krt:many:key-moves-between-parents:new-parent-first"
 F6_WHAT = ("krt manyCollection loses an output key that moves to another parent input when the new parent is "
